@@ -283,7 +283,8 @@ GranCode == [Granularity256b |-> 0, Granularity512b |-> 1, Granularity1kb |-> 2,
 WaysCode == [Ways1 |-> 0, Ways2 |-> 1, Ways4 |-> 2, Ways8 |-> 3, Ways16 |-> 4, Ways3 |-> 8, Ways6 |-> 9, Ways12 |-> 10]
 WaysNum == [Ways1 |-> 1, Ways2 |-> 2, Ways4 |-> 4, Ways8 |-> 8, Ways16 |-> 16, Ways3 |-> 3, Ways6 |-> 6, Ways12 |-> 12]
 Cfmws_Init(a) == [base |-> a.base, size |-> a.size, arith |-> ArithCode[a.arith], gran |-> GranCode[a.gran],
-                  ways |-> a.ways, restr |-> {}, qtg |-> a.qtg, targets |-> <<>>]
+                  ways |-> a.ways, restr |-> {}, qtg |-> a.qtg,
+                  targets |-> IF "targets" \in DOMAIN a THEN a.targets ELSE <<>>]
 Cfmws_Call(s, c) ==
   CASE c.o = "add_target" -> [s EXCEPT !.targets = Append(@, c.a.v)]
     [] OTHER -> [s EXCEPT !.restr = @ \cup (CASE c.o = "cxl_type_2_memory" -> {0} [] c.o = "cxl_type_3_memory" -> {1}
@@ -413,6 +414,7 @@ SInit(st, a, R) ==
     [] st \in {"aerroot", "aerdev", "aerbridge"} -> AerCommon_Init(a)
     [] st \in {"ghes", "ghesv2"} -> Ghes_Init(a) [] st = "notif" -> Notif_Init(a)
     [] st = "qos" -> Qos_Init(a) [] st = "ecam" -> Ecam_Init(a) [] st = "xent" -> Xent_Init(a)
+    [] st = "gas" -> [g |-> a]
 
 SCall(st, s, c, R) ==
   CASE st = "gicc" -> Gicc_Call(s, c) [] st = "gicmsi" -> Gicmsi_Call(s, c)
@@ -441,6 +443,8 @@ SLay(st, s) ==
     [] st = "aerroot" -> AerRoot_Lay(s) [] st = "aerdev" -> AerDev_Lay(s) [] st = "aerbridge" -> AerBridge_Lay(s)
     [] st = "ghes" -> Ghes_Lay(s) [] st = "ghesv2" -> GhesV2_Lay(s) [] st = "notif" -> Notif_Lay(s)
     [] st = "qos" -> Qos_Lay(s) [] st = "ecam" -> Ecam_Lay(s) [] st = "xent" -> Xent_Lay(s)
+    [] st = "gas" -> <<N("space", <<SpaceCode[s.g.space]>>), N("width", s.g.width), N("offset", s.g.offset),
+                       N("access", <<AccessCode[s.g.access]>>), N("addr", s.g.addr)>>
 
 \* state of structure st after its constructor and the first k builder calls
 SStateK(st, e, R, k) == FoldLeft(LAMBDA s, c : SCall(st, s, c, R), SInit(st, e.a, R), SubSeq(CallsOf(e), 1, k))
